@@ -419,3 +419,78 @@ where
     });
     (q, class)
 }
+
+// ---- STARK proofs --------------------------------------------------------------------------------
+
+use starky::proof::StarkProofWithPublicInputs;
+
+pub fn walk_stark<C: GenericConfig<2, F = F>>(p: &mut StarkProofWithPublicInputs<F, C, 2>, f: &mut dyn FnMut(&'static str, Slot<<C::Hasher as Hasher<F>>::Hash>)) {
+    for x in p.public_inputs.iter_mut() {
+        f("public_input", Slot::F(x));
+    }
+    for h in p.proof.trace_cap.0.iter_mut() {
+        f("trace_cap", Slot::H(h));
+    }
+    if let Some(cap) = p.proof.auxiliary_polys_cap.as_mut() {
+        for h in cap.0.iter_mut() {
+            f("auxiliary_polys_cap", Slot::H(h));
+        }
+    }
+    if let Some(cap) = p.proof.quotient_polys_cap.as_mut() {
+        for h in cap.0.iter_mut() {
+            f("quotient_polys_cap", Slot::H(h));
+        }
+    }
+    let o = &mut p.proof.openings;
+    for x in o.local_values.iter_mut() {
+        f("openings.local_values", Slot::E(x));
+    }
+    for x in o.next_values.iter_mut() {
+        f("openings.next_values", Slot::E(x));
+    }
+    if let Some(v) = o.auxiliary_polys.as_mut() {
+        for x in v.iter_mut() {
+            f("openings.auxiliary_polys", Slot::E(x));
+        }
+    }
+    if let Some(v) = o.auxiliary_polys_next.as_mut() {
+        for x in v.iter_mut() {
+            f("openings.auxiliary_polys_next", Slot::E(x));
+        }
+    }
+    if let Some(v) = o.ctl_zs_first.as_mut() {
+        for x in v.iter_mut() {
+            f("openings.ctl_zs_first", Slot::F(x));
+        }
+    }
+    if let Some(v) = o.quotient_polys.as_mut() {
+        for x in v.iter_mut() {
+            f("openings.quotient_polys", Slot::E(x));
+        }
+    }
+    walk_fri::<C::Hasher>(&mut p.proof.opening_proof, f);
+}
+
+pub fn count_stark_slots<C: GenericConfig<2, F = F>>(p: &StarkProofWithPublicInputs<F, C, 2>) -> usize {
+    let mut q = p.clone();
+    let mut n = 0;
+    walk_stark::<C>(&mut q, &mut |_, _| n += 1);
+    n
+}
+
+pub fn tamper_stark_at<C: GenericConfig<2, F = F>>(p: &StarkProofWithPublicInputs<F, C, 2>, k: usize, mode: u8, r: u64) -> (StarkProofWithPublicInputs<F, C, 2>, &'static str)
+where
+    <C::Hasher as Hasher<F>>::Hash: HashTamper,
+{
+    let mut q = p.clone();
+    let mut i = 0usize;
+    let mut class = "";
+    walk_stark::<C>(&mut q, &mut |name, slot| {
+        if i == k {
+            class = name;
+            tamper_slot(slot, mode, r);
+        }
+        i += 1;
+    });
+    (q, class)
+}
